@@ -21,7 +21,11 @@ LEVEL_NOTE = ("Layered correspondence: K singles_gl / singles_simpson take as in
               "the signal and idler group indices. The coincidence integrand and the normalisations belong to C05/C07. This is the weakest of the "
               "twenty claims: the central inequality is observed, not proved.")
 OPS = {"singles_gl", "singles_simpson", "counts", "efficiencies", "counts_corr", "eff"}
-TOL = {"singles_gl": ("rel", 1e-10), "singles_simpson": ("rel", 1e-10), "counts": ("rel", 1e-12),
+# singles_*: the 2-D singles integral is a sum of strongly oscillating complex terms; at cancellation-dominated
+# frequency pairs the implementation's rayon summation order moves the result by up to ~3e-8 relative (measured
+# over 9 000 setups by the composed-model run; seed 13 hit 1.2e-10 with the former 1e-10) => rel 1e-6, the
+# tolerance the composed ops use; typical agreement stays <= 1e-10.
+TOL = {"singles_gl": ("rel", 1e-6), "singles_simpson": ("rel", 1e-6), "counts": ("rel", 1e-12),
        "efficiencies": ("rel", 1e-12), "counts_corr": ("ulp", 8), "eff": ("ulp", 4)}
 DEFAULT_TOL = ("exact",)
 RULE = ("family counts: the probed D9 input, then seeded random phase-matched setups (11 crystals x 5 types x poling on(auto period)/"
@@ -30,7 +34,7 @@ RULE = ("family counts: the probed D9 input, then seeded random phase-matched se
         "threshold from {1e-2,1e-4,0.1,0.25}; per setup a grid of frequency pairs inside the "
         "support (pump direction: core and the wings thr <= alpha < sqrt(thr), just inside and beyond the threshold contour; x "
         "anti-diagonal through +-1.6 first zeros; pairs with vanishing singles are not skipped) under Gauss-Legendre-40 and Simpson-200, the rates and "
-        "efficiencies on a square core grid and on a 7x7 grid reaching beyond the threshold contour, the singles integrand through 7 low-order rules; mode singles: the integrand on random "
+        "efficiencies on a square core grid and on a 7x7 grid reaching beyond the threshold contour, every third setup a call-history sequence of SPDC::efficiencies (two integrators, one parameter changed, repeat) compared with freshly evaluated spectra, the singles integrand through 7 low-order rules; mode singles: the integrand on random "
         "general setups (non-collinear, apodised, counter-propagating); mode limit: collinear waists 1-5 mm, ratio vs eta F^2/R; "
         "mode eff: 13^3 corner triples + random triples (zero, subnormal, tiny, huge)")
 RESIDUAL = ("the pointwise inequality jsi <= min(singles) between the two independent closed forms (hypothesis of the theorems; "
